@@ -5,6 +5,10 @@ import asyncio
 from ..core.vtime import VLoop, TICK, Idle, VirtualTimeout
 
 
+class FuncBase(BaseException):
+    pass
+
+
 def pitems(p):
     out = []
     for d, x in p:
@@ -122,7 +126,9 @@ def run_real(T, prog, outcomes, shutdown_at=None, make_buffer=None):
             await asyncio.sleep(dur * TICK)
             out.append(('end', now(), ok))
             if not ok:
-                raise RuntimeError('f')
+                # a failing call is a failing call, whatever the class of the error: an ordinary exception, the
+                # CancelledError of something the function awaited, or another BaseException-only error
+                raise (RuntimeError('f'), asyncio.CancelledError(), FuncBase('f'))[k % 3]
         buf = BufferAsyncCalls(func, timeout=T * TICK) if make_buffer is None else make_buffer(func, T * TICK)
 
         async def agen(p):
